@@ -2024,6 +2024,22 @@ theorem pyCall_toCall (s : Sig) (hwf : s.wf = true) (n : Named) (h : NamedWF s n
       intro p hp
       have := hallp p.name (List.mem_map.2 ⟨p, hp, rfl⟩)
       exact (khas_iff _ _).2 this
+    have hallb : s.pos.all (fun p => ((kget n.named p.name).orElse fun _ => p.dflt).isSome) = true := by
+      rw [List.all_eq_true]
+      intro p hp
+      have := hall p hp
+      cases hg : kget n.named p.name with
+      | none => rw [hg] at this; cases this
+      | some v => rfl
+    have hfm : (s.pos.filterMap fun p => (kget n.named p.name).orElse fun _ => p.dflt)
+        = s.pos.filterMap fun p => kget n.named p.name := by
+      apply filterMap_congr'
+      intro p hp
+      have := hall p hp
+      cases hg : kget n.named p.name with
+      | none => rw [hg] at this; cases this
+      | some v => rfl
+    simp only [hallb, if_true, hfm]
     obtain ⟨hlen, hkz⟩ := kget_zip_filterMap n.named s.pos hpn hall
     have hkw2 : ∀ p ∈ n.named.filter (fun p => !(s.posNames.contains p.1)) ++ n.extra, s.names.contains p.1 = true →
         p.1 ∉ s.posNames := by
@@ -2473,5 +2489,364 @@ theorem objBuilt_of_init (s : Sig) (hwf : s.wf = true) (c : Call) (hc : c.wf = t
         exfalso; apply hm
         rw [List.any_eq_true]
         exact ⟨p, hp, by simp [hd, hk]⟩
+
+theorem resolve_enter_other (attrs : Nat → KW) (st : OvStore) (o t o' t' : Nat) (kw : KW) (k : Name)
+    (h : ¬ (o' = o ∧ t' = t)) :
+    resolve attrs (st.enter o t kw) o' t' k = resolve attrs st o' t' k := by
+  unfold resolve OvStore.enter
+  have : ((o == o') && (t == t')) = false := by
+    cases h1 : o == o' <;> cases h2 : t == t' <;> simp_all
+  simp only [List.find?_cons, this]
+
+theorem resolve_enter_self (attrs : Nat → KW) (st : OvStore) (o t : Nat) (kw : KW) (k : Name) :
+    resolve attrs (st.enter o t kw) o t k =
+      match kget kw k with
+      | some v => some v
+      | none => kget (attrs o) k := by
+  unfold resolve OvStore.enter
+  simp only [List.find?_cons, beq_self_eq_true, Bool.and_self]
+  cases kget kw k <;> rfl
+
+theorem exit_enter (st : OvStore) (o t : Nat) (kw : KW) : (st.enter o t kw).exit = st := rfl
+
+
+
+theorem mem_kset {m : KW} {k : Name} {v : V} {p : Name × V} (h : p ∈ kset m k v) : p = (k, v) ∨ p ∈ m := by
+  induction m with
+  | nil => simp [kset] at h; exact Or.inl h
+  | cons q r ih =>
+    obtain ⟨k0, v0⟩ := q
+    simp only [kset] at h
+    split at h
+    · rcases List.mem_cons.1 h with h | h
+      · exact Or.inl h
+      · exact Or.inr (List.mem_cons_of_mem _ h)
+    · rcases List.mem_cons.1 h with h | h
+      · exact Or.inr (h ▸ List.mem_cons_self ..)
+      · exact (ih h).imp id (List.mem_cons_of_mem _)
+
+theorem kset_same {m : KW} {k : Name} {v : V} (h : kget m k = some v) : kset m k v = m := by
+  induction m with
+  | nil => cases h
+  | cons q r ih =>
+    obtain ⟨k0, v0⟩ := q
+    rw [kget_cons] at h
+    simp only [kset]
+    by_cases e : k0 = k
+    · subst e; simp only [if_true] at h ⊢; cases h; rfl
+    · simp only [e, if_false] at h ⊢; rw [ih h]
+
+theorem noteChange_bound (F : Functor) (k : Name) (a b : Bool) :
+    (F.noteChange k a b).bound = F.bound ∧ (F.noteChange k a b).va = F.va ∧ (F.noteChange k a b).sig = F.sig ∧
+    (F.noteChange k a b).overrideArgs = F.overrideArgs ∧ (F.noteChange k a b).ignoreExtraArgs = F.ignoreExtraArgs := by
+  unfold Functor.noteChange; split <;> exact ⟨rfl, rfl, rfl, rfl, rfl⟩
+
+theorem find_param_none (s : Sig) (k : Name) (h : s.names.contains k = false) :
+    s.params.find? (fun p => p.name == k) = none := by
+  rw [List.find?_eq_none]
+  intro p hp hpk
+  have hk : p.name = k := by simpa using hpk
+  have : k ∈ s.names := by
+    simp only [Sig.params, List.mem_append] at hp
+    simp only [Sig.names, Sig.posNames, Sig.kwNames, List.mem_append, List.mem_map]
+    exact hp.imp (fun h => ⟨p, h, hk⟩) (fun h => ⟨p, h, hk⟩)
+  rw [List.contains_iff_mem.2 this] at h; cases h
+
+theorem built_setArg (s : Sig) (F : Functor) (n : Named) (hB : Built s F n) (k : Name) (v : V)
+    (hk : s.names.contains k = true ∨ s.varkw.isSome = true) (hv : s.varargs ≠ some k) :
+    Built s (F.setArg k v) (Named.setArg s n k v) ∧
+    (F.setArg k v).overrideArgs = F.overrideArgs ∧ (F.setArg k v).ignoreExtraArgs = F.ignoreExtraArgs := by
+  obtain ⟨hsig, hnd, hnamed, hextra, hexv, hva, hvas, hnovk⟩ := hB
+  subst hsig
+  have hB : Built F.sig F n := ⟨rfl, hnd, hnamed, hextra, hexv, hva, hvas, hnovk⟩
+  unfold Functor.setArg Named.setArg
+  simp only []
+  cases hn : F.sig.names.contains k with
+  | true =>
+    have hkg : kget F.bound k = kget n.named k := by
+      rw [← hnamed, kget_filter (fun k => F.sig.names.contains k), hn]; rfl
+    simp only [if_true, hkg]
+    split
+    · exact ⟨hB, rfl, rfl⟩
+    · obtain ⟨e1, e2, e3, e4, e5⟩ := noteChange_bound { F with bound := kset F.bound k v } k
+        (((F.sig.params.find? (fun p => p.name == k)).bind (·.dflt)) == some v)
+        ((F.sig.params.find? (fun p => p.name == k)).bind (·.dflt)).isSome
+      refine ⟨⟨e3, by rw [e1]; exact nodup_keys_kset _ _ _ hnd, ?_, ?_, ?_, by rw [e2]; exact hva,
+        by rw [e2]; exact hvas, ?_⟩, e4, e5⟩
+      · rw [e1]; simp only
+        rw [filter_kset (fun k => F.sig.names.contains k), hn, hnamed]; rfl
+      · rw [e1]; simp only
+        rw [filter_kset (fun k => !F.sig.names.contains k), hn, hextra]; rfl
+      · rw [e1]; intro p hp hpn
+        rcases mem_kset hp with rfl | hp
+        · rw [hn] at hpn; cases hpn
+        · exact hexv p hp hpn
+      · rw [e1]; intro p hp
+        rcases mem_kset hp with rfl | hp
+        · exact hv
+        · exact hnovk p hp
+  | false =>
+    have hvk : F.sig.varkw.isSome = true := by
+      rcases hk with h | h
+      · rw [hn] at h; cases h
+      · exact h
+    have hfind := find_param_none F.sig k hn
+    have hkg : kget F.bound k = kget n.extra k := by
+      rw [← hextra, kget_filter (fun k => !F.sig.names.contains k), hn]; rfl
+    simp only [Bool.false_eq_true, if_false, hfind, Option.bind_none, Option.orElse_none]
+    split
+    · rename_i hc
+      have hs : kget n.extra k = some v := by
+        rw [← hkg]
+        cases hg : kget F.bound k with
+        | none => rw [hg] at hc; simp at hc
+        | some w => rw [hg] at hc; simp at hc; rw [hc]
+      refine ⟨⟨rfl, hnd, hnamed, ?_, hexv, hva, hvas, hnovk⟩, rfl, rfl⟩
+      simp only [kset_same hs]; exact hextra
+    · obtain ⟨e1, e2, e3, e4, e5⟩ := noteChange_bound { F with bound := kset F.bound k v } k
+        ((none : Option V) == some v) (none : Option V).isSome
+      refine ⟨⟨e3, by rw [e1]; exact nodup_keys_kset _ _ _ hnd, ?_, ?_, ?_, by rw [e2]; exact hva,
+        by rw [e2]; exact hvas, ?_⟩, e4, e5⟩
+      · rw [e1]; simp only
+        rw [filter_kset (fun k => F.sig.names.contains k), hn, hnamed]; rfl
+      · rw [e1]; simp only
+        rw [filter_kset (fun k => !F.sig.names.contains k), hn, hextra]; rfl
+      · rw [e1]; intro p hp _
+        exact hvk
+      · rw [e1]; intro p hp
+        rcases mem_kset hp with rfl | hp
+        · exact hv
+        · exact hnovk p hp
+
+
+/-- A late-binding operation is admissible for a signature: only declared parameters, wildcard
+keywords when `**kwargs` is declared, the variadic list when `*args` is declared; no key named like
+the `*args` parameter. -/
+def LateOp.ok (s : Sig) : LateOp → Prop
+  | .rebind upd => ∀ p ∈ upd, (s.names.contains p.1 = true ∨ s.varkw.isSome = true) ∧ s.varargs ≠ some p.1
+  | .setVarargs _ => s.varargs.isSome = true
+  | .del _ => True
+
+theorem built_rebind (s : Sig) (F : Functor) (n : Named) (hB : Built s F n) (upd : KW)
+    (h : ∀ p ∈ upd, (s.names.contains p.1 = true ∨ s.varkw.isSome = true) ∧ s.varargs ≠ some p.1) :
+    Built s (F.rebind upd) (n.rebind s upd) ∧
+    (F.rebind upd).overrideArgs = F.overrideArgs ∧ (F.rebind upd).ignoreExtraArgs = F.ignoreExtraArgs := by
+  induction upd generalizing F n with
+  | nil => exact ⟨hB, rfl, rfl⟩
+  | cons p r ih =>
+    obtain ⟨k, v⟩ := p
+    obtain ⟨h1, h2⟩ := h (k, v) (List.mem_cons_self ..)
+    obtain ⟨hB', e1, e2⟩ := built_setArg s F n hB k v h1 h2
+    obtain ⟨hB'', e3, e4⟩ := ih (F.setArg k v) (Named.setArg s n k v) hB' (fun q hq => h q (List.mem_cons_of_mem _ hq))
+    exact ⟨hB'', by rw [← e1]; exact e3, by rw [← e2]; exact e4⟩
+
+theorem built_setVarargs (s : Sig) (F : Functor) (n : Named) (hB : Built s F n) (xs : List V)
+    (h : s.varargs.isSome = true) :
+    Built s (F.setVarargs xs) { n with va := xs } ∧
+    (F.setVarargs xs).overrideArgs = F.overrideArgs ∧ (F.setVarargs xs).ignoreExtraArgs = F.ignoreExtraArgs := by
+  obtain ⟨hsig, hnd, hnamed, hextra, hexv, hva, hvas, hnovk⟩ := hB
+  subst hsig
+  unfold Functor.setVarargs
+  cases hv : F.sig.varargs with
+  | none => rw [hv] at h; cases h
+  | some vn =>
+    simp only
+    obtain ⟨e1, e2, e3, e4, e5⟩ := noteChange_bound { F with va := some xs } vn xs.isEmpty true
+    exact ⟨⟨e3, by rw [e1]; exact hnd, by rw [e1]; exact hnamed, by rw [e1]; exact hextra,
+      by rw [e1]; exact hexv, by rw [e2]; rfl, fun _ => by rw [hv]; rfl, by rw [e1]; exact hnovk⟩, e4, e5⟩
+
+theorem built_delArg (s : Sig) (F : Functor) (n : Named) (hB : Built s F n) (k : Name) :
+    Built s (F.delArg k) ⟨kdel n.named k, n.va, kdel n.extra k⟩ ∧
+    (F.delArg k).overrideArgs = F.overrideArgs ∧ (F.delArg k).ignoreExtraArgs = F.ignoreExtraArgs := by
+  obtain ⟨hsig, hnd, hnamed, hextra, hexv, hva, hvas, hnovk⟩ := hB
+  refine ⟨⟨hsig, ?_, ?_, ?_, ?_, hva, hvas, ?_⟩, rfl, rfl⟩
+  · simp only [Functor.delArg, kdel]
+    rw [keys_filter (fun x => x != k)]
+    exact List.Nodup.sublist List.filter_sublist hnd
+  · simp only [Functor.delArg, kdel]
+    rw [← hnamed, List.filter_filter, List.filter_filter]
+    apply List.filter_congr; intro p _; rw [Bool.and_comm]
+  · simp only [Functor.delArg, kdel]
+    rw [← hextra, List.filter_filter, List.filter_filter]
+    apply List.filter_congr; intro p _; rw [Bool.and_comm]
+  · intro p hp
+    simp only [Functor.delArg, kdel, List.mem_filter] at hp
+    exact hexv p hp.1
+  · intro p hp
+    simp only [Functor.delArg, kdel, List.mem_filter] at hp
+    exact hnovk p hp.1
+
+theorem built_late (s : Sig) (F : Functor) (n : Named) (hB : Built s F n) (ops : List LateOp)
+    (h : ∀ op ∈ ops, LateOp.ok s op) :
+    Built s (ops.foldl Functor.late F) (ops.foldl (Named.late s) n) ∧
+    (ops.foldl Functor.late F).overrideArgs = F.overrideArgs ∧
+    (ops.foldl Functor.late F).ignoreExtraArgs = F.ignoreExtraArgs := by
+  induction ops generalizing F n with
+  | nil => exact ⟨hB, rfl, rfl⟩
+  | cons op r ih =>
+    have hop := h op (List.mem_cons_self ..)
+    have hr := fun o ho => h o (List.mem_cons_of_mem _ ho)
+    simp only [List.foldl_cons]
+    cases op with
+    | rebind upd =>
+      obtain ⟨hB', e1, e2⟩ := built_rebind s F n hB upd hop
+      obtain ⟨hB'', e3, e4⟩ := ih (F.rebind upd) (n.rebind s upd) hB' hr
+      exact ⟨hB'', by rw [← e1]; exact e3, by rw [← e2]; exact e4⟩
+    | setVarargs xs =>
+      obtain ⟨hB', e1, e2⟩ := built_setVarargs s F n hB xs hop
+      obtain ⟨hB'', e3, e4⟩ := ih (F.setVarargs xs) { n with va := xs } hB' hr
+      exact ⟨hB'', by rw [← e1]; exact e3, by rw [← e2]; exact e4⟩
+    | del k =>
+      obtain ⟨hB', e1, e2⟩ := built_delArg s F n hB k
+      obtain ⟨hB'', e3, e4⟩ := ih (F.delArg k) ⟨kdel n.named k, n.va, kdel n.extra k⟩ hB' hr
+      exact ⟨hB'', by rw [← e1]; exact e3, by rw [← e2]; exact e4⟩
+
+
+
+theorem fill_congr_orElse {m m' : KW} {ps : List Param}
+    (h : ∀ p ∈ ps, (kget m p.name).orElse (fun _ => p.dflt) = (kget m' p.name).orElse (fun _ => p.dflt)) :
+    fill m ps = fill m' ps := by
+  induction ps with
+  | nil => rfl
+  | cons p r ih =>
+    simp only [fill]
+    rw [h p (List.mem_cons_self ..), ih (fun q hq => h q (List.mem_cons_of_mem _ hq))]
+
+theorem keys_withDefaults_sublist (f : KW) (ps : List Param) :
+    (keys (withDefaults f ps)).Sublist (ps.map (·.name)) := by
+  induction ps with
+  | nil => simp [withDefaults, keys]
+  | cons p ps ih =>
+    simp only [withDefaults, List.filterMap_cons, List.map_cons]
+    cases hv : (kget f p.name).orElse (fun _ => p.dflt) with
+    | none => simp only [Option.map_none]; exact (ih).cons _
+    | some v => simp only [Option.map_some, keys, List.map_cons]; exact (ih).cons₂ _
+
+/-- The JSON round trip of a functor built from `n` is a functor built from `n` with the defaults
+made explicit. -/
+theorem built_json (s : Sig) (hwf : s.wf = true) (F : Functor) (n : Named) (hB : Built s F n) :
+    Built s F.jsonRoundTrip
+      ⟨withDefaults F.bound s.pos ++ withDefaults F.bound s.kwonly, F.va.getD [], n.extra⟩ := by
+  obtain ⟨hsig, hnd, hnamed, hextra, hexv, hva, hvas, hnovk⟩ := hB
+  subst hsig
+  have hpn : (F.sig.pos.map (·.name)).Nodup := Sig.wf_pos_nodup hwf
+  have hkn : (F.sig.kwonly.map (·.name)).Nodup := Sig.wf_kw_nodup hwf
+  have hP : ∀ p ∈ withDefaults F.bound F.sig.pos, F.sig.names.contains p.1 = true := fun p hp =>
+    Sig.pos_sub_names F.sig (keys_withDefaults_sub _ _ _ (mem_keys_of_mem hp))
+  have hK : ∀ p ∈ withDefaults F.bound F.sig.kwonly, F.sig.names.contains p.1 = true := fun p hp =>
+    List.contains_iff_mem.2 (List.mem_append_right _ (keys_withDefaults_sub _ _ _ (mem_keys_of_mem hp)))
+  have hE : ∀ p ∈ F.bound.filter (fun p => !(F.sig.names.contains p.1)), F.sig.names.contains p.1 = false := by
+    intro p hp; rw [List.mem_filter] at hp; simpa using hp.2
+  refine ⟨rfl, ?_, ?_, ?_, ?_, ?_, ?_, ?_⟩
+  · -- nodup
+    simp only [Functor.jsonRoundTrip]
+    rw [keys_append, keys_append, List.nodup_append]
+    refine ⟨?_, ?_, ?_⟩
+    · rw [List.nodup_append]
+      refine ⟨List.Nodup.sublist (keys_withDefaults_sublist _ _) hpn,
+              List.Nodup.sublist (keys_withDefaults_sublist _ _) hkn, ?_⟩
+      intro a ha b hb e; subst e
+      exact Sig.wf_kw_not_pos hwf (keys_withDefaults_sub _ _ _ hb) (keys_withDefaults_sub _ _ _ ha)
+    · rw [keys_filter (fun k => !(F.sig.names.contains k))]
+      exact List.Nodup.sublist List.filter_sublist hnd
+    · intro a ha b hb e; subst e
+      obtain ⟨q, hq, hqe⟩ := exists_of_mem_keys hb
+      have h1 := hE q hq
+      rw [hqe] at h1
+      rcases List.mem_append.1 ha with ha | ha
+      · obtain ⟨q', hq', hqe'⟩ := exists_of_mem_keys ha
+        have := hP q' hq'; rw [hqe', h1] at this; cases this
+      · obtain ⟨q', hq', hqe'⟩ := exists_of_mem_keys ha
+        have := hK q' hq'; rw [hqe', h1] at this; cases this
+  · simp only [Functor.jsonRoundTrip]
+    rw [List.filter_append, List.filter_append, List.filter_eq_self.2 hP, List.filter_eq_self.2 hK,
+      List.filter_eq_nil_iff.2 (fun p hp => by rw [hE p hp]; simp)]
+    simp
+  · simp only [Functor.jsonRoundTrip]
+    rw [List.filter_append, List.filter_append,
+      List.filter_eq_nil_iff.2 (fun p hp => by rw [hP p hp]; simp),
+      List.filter_eq_nil_iff.2 (fun p hp => by rw [hK p hp]; simp),
+      List.filter_eq_self.2 (fun p hp => by rw [hE p hp]; rfl)]
+    simpa using hextra
+  · intro p hp hpn'
+    simp only [Functor.jsonRoundTrip] at hp
+    rcases List.mem_append.1 hp with hp | hp
+    · rcases List.mem_append.1 hp with hp | hp
+      · rw [hP p hp] at hpn'; cases hpn'
+      · rw [hK p hp] at hpn'; cases hpn'
+    · exact hexv p (List.mem_filter.1 hp).1 hpn'
+  · simp only [Functor.jsonRoundTrip]
+    cases hv : F.sig.varargs with
+    | some vn => rfl
+    | none =>
+      cases hf : F.va with
+      | none => rfl
+      | some xs => have := hvas (by rw [hf]; rfl); rw [hv] at this; cases this
+  · intro hne
+    simp only [Functor.jsonRoundTrip] at hne
+    cases hv : F.sig.varargs with
+    | some vn => rfl
+    | none => rw [hv] at hne; cases hne
+  · intro p hp
+    simp only [Functor.jsonRoundTrip] at hp
+    intro hvn
+    have hnn : p.1 ∉ F.sig.names := Sig.wf_varargs_not_name hwf hvn
+    rcases List.mem_append.1 hp with hp | hp
+    · rcases List.mem_append.1 hp with hp | hp
+      · exact hnn (List.contains_iff_mem.1 (hP p hp))
+      · exact hnn (List.contains_iff_mem.1 (hK p hp))
+    · exact hnovk p (List.mem_filter.1 hp).1 hvn
+
+
+theorem nameArgs_empty_if (s : Sig) (b : Bool) :
+    nameArgs s (if b = true then dropExtras s Call.empty else Call.empty) = .ok ⟨[], [], []⟩ := by
+  cases b
+  · exact nameArgs_empty s
+  · simp [nameArgs, dropExtras, Call.empty, bindKw]
+
+/-- The round-tripped functor calls like the original: `from_json(to_json(F))()` is `F()`. -/
+theorem functorCall_json (s : Sig) (hwf : s.wf = true) (F : Functor) (n : Named) (hB : Built s F n) :
+    functorCall true F.jsonRoundTrip Call.empty none none = functorCall true F Call.empty none none := by
+  have hBj := built_json s hwf F n hB
+  rw [functorCall_eq s hwf F.jsonRoundTrip _ ⟨[], [], []⟩ hBj Call.empty none none rfl
+        (fun p hp => by simp [Call.empty] at hp) (nameArgs_empty_if s _) (Or.inr (conflicts_empty_right _)),
+      functorCall_eq s hwf F n ⟨[], [], []⟩ hB Call.empty none none rfl
+        (fun p hp => by simp [Call.empty] at hp) (nameArgs_empty_if s _) (Or.inr (conflicts_empty_right _)),
+      mergeNamed_empty_right, mergeNamed_empty_right]
+  obtain ⟨hsig, _, hnamed, _, _, hva, _, _⟩ := hB
+  subst hsig
+  have hpn : (F.sig.pos.map (·.name)).Nodup := Sig.wf_pos_nodup hwf
+  have hkn : (F.sig.kwonly.map (·.name)).Nodup := Sig.wf_kw_nodup hwf
+  obtain ⟨hp1, hp2⟩ := kget_withDefaults F.bound F.sig.pos hpn
+  obtain ⟨hk1, hk2⟩ := kget_withDefaults F.bound F.sig.kwonly hkn
+  have hget : ∀ p ∈ F.sig.params,
+      (kget (withDefaults F.bound F.sig.pos ++ withDefaults F.bound F.sig.kwonly) p.name).orElse (fun _ => p.dflt)
+        = (kget n.named p.name).orElse (fun _ => p.dflt) := by
+    intro p hp
+    have hpn' : F.sig.names.contains p.name = true := by
+      apply List.contains_iff_mem.2
+      simp only [Sig.params, List.mem_append] at hp
+      simp only [Sig.names, Sig.posNames, Sig.kwNames, List.mem_append, List.mem_map]
+      exact hp.imp (fun h => ⟨p, h, rfl⟩) (fun h => ⟨p, h, rfl⟩)
+    have hn : kget n.named p.name = kget F.bound p.name := by
+      rw [← hnamed, kget_filter (fun k => F.sig.names.contains k), hpn']; rfl
+    have hval : kget (withDefaults F.bound F.sig.pos ++ withDefaults F.bound F.sig.kwonly) p.name = pval F.bound p := by
+      rw [kget_append]
+      rcases List.mem_append.1 hp with hp | hp
+      · rw [hp1 p hp]
+        cases hv : pval F.bound p with
+        | some v => rfl
+        | none =>
+          simp only
+          exact hk2 _ (fun h => Sig.wf_kw_not_pos hwf h (List.mem_map.2 ⟨p, hp, rfl⟩))
+      · rw [hp2 _ (Sig.wf_kw_not_pos hwf (List.mem_map.2 ⟨p, hp, rfl⟩))]
+        exact hk1 p hp
+    rw [hval, hn]
+    unfold pval
+    cases kget F.bound p.name <;> cases p.dflt <;> rfl
+  unfold complete
+  simp only
+  rw [fill_congr_orElse (fun p hp => hget p (List.mem_append_left _ hp)),
+      fill_congr_orElse (fun p hp => hget p (List.mem_append_right _ hp)), hva]
 
 end Pg.C18
